@@ -79,6 +79,7 @@ func addDeltas(l lm.List, unit int64) []int64 {
 
 func c09Run(c *core.Ctx) {
 	longRun(c, "add")
+	againRun(c, "add")
 	type scope struct {
 		grid  int64
 		max   int
